@@ -75,6 +75,21 @@ def value_set(facts, body, e, depth=0):
         return out
     if k == "cast" and e[1] in ("IntToInt",):
         return value_set(facts, body, e[2], depth + 1)
+    if k == "field" and isinstance(e[2], int):
+        # a column of a constant table walked by an iterator: `for (prefix, radix) in TABLE.iter()` — the values the
+        # column can take are the constants in that position of the table's rows
+        rows = _const_table_rows(facts, body, e[1])
+        if rows is not None:
+            out = set()
+            for r in rows:
+                r = strip_refs(r)
+                if r[0] != "agg" or e[2] >= len(r[2]):
+                    return None
+                sv = value_set(facts, body, r[2][e[2]], depth + 1)
+                if sv is None:
+                    return None
+                out |= sv
+            return out
     if k == "field" and e[1][0] == "downcast" and e[1][2] == "Some":
         return option_payload_set(facts, body, e[1][1], depth + 1)
     if k == "field" and body.kind == "closure" and strip_refs(e[1]) == ("arg", 1):
@@ -103,6 +118,32 @@ def value_set(facts, body, e, depth=0):
         for cb in facts.fns():
             cg, _ = facts.callgraph()
         return out if n else None
+    return None
+
+
+def _const_table_rows(facts, body, e):
+    """Rows (aggregate expressions) of the constant array whose elements the expression e ranges over, or None."""
+    e = strip_refs(e)
+    if not (e[0] == "field" and e[2] == 0 and e[1][0] == "downcast" and e[1][2] == "Some"):
+        return None
+    src = strip_refs(e[1][1])
+    if not (src[0] == "call" and src[1] and src[1]["path"].endswith("::next") and src[2]):
+        return None
+    it = strip_refs(src[2][0])
+    hops = 0
+    while it[0] == "call" and it[1] and re.search(r"(::iter|::into_iter|IntoIterator>::into_iter|Deref>::deref|::as_slice)$", it[1]["path"]) and it[2] and hops < 6:
+        it = strip_refs(it[2][0])
+        hops += 1
+    while it[0] == "cast" and str(it[1]).startswith("PointerCoercion"):
+        it = strip_refs(it[2])
+    if it[0] == "const" and it[1].get("item"):
+        cb = facts.body(it[1]["item"])
+        if cb is not None:
+            arr = strip_refs(cb.trace(0))
+            if arr[0] == "agg" and arr[1].get("agg") == "Array":
+                return list(arr[2])
+    if it[0] == "agg" and it[1].get("agg") == "Array":
+        return list(it[2])
     return None
 
 
